@@ -41,12 +41,13 @@ def run(tier):
         for sig, hist, msg in viol:
             rep.add_violation(Violation(sig, dict(bounds=[n, R, J], history=hjmc.fmt_hist(hist)), msg))
     # larger fields: every multiset of n cards from the reduced card set
-    for (n, R, nc) in ([(4, 2, None), (5, 1, None), (6, 1, None)] if tier == 'quick' else [(4, 2, None), (5, 2, None), (4, 3, None), (6, 1, None), (6, 2, 12), (7, 1, None)]):
+    for (n, R, nc, per) in ([(4, 2, None, 1), (5, 1, None, 1), (6, 1, None, 1), (3, 2, None, 2)] if tier == 'quick' else
+                            [(4, 2, None, 1), (5, 2, None, 1), (4, 3, None, 1), (6, 1, None, 1), (6, 2, 12, 1), (7, 1, None, 1), (4, 2, None, 2), (3, 3, None, 2)]):
         t0 = time.time()
-        tot, viol = hjmc.placing_enumerate(n, R, nc)
+        tot, viol = hjmc.placing_enumerate(n, R, nc, per)
         for k in dt:
             dt[k] += tot[k]
-        rep.part('larger fields (%d athletes, %d regular heights + a closing one, %s reduced cards)' % (n, R, tot['reduced_cards']), wall_s=round(time.time() - t0, 1), **tot)
+        rep.part('larger fields (%d athletes, %d regular heights + a closing one, %s reduced cards, %d per signature)' % (n, R, tot['reduced_cards'], per), wall_s=round(time.time() - t0, 1), **tot)
         for sig, hist, msg in viol:
             rep.add_violation(Violation(sig, dict(bounds=[n, R + 1, 1], history=hjmc.fmt_hist(hist)), msg))
     # the tie-focused enumeration once more with the heights passed as binary floats / two-place Decimals at 1 cm steps
